@@ -9,7 +9,7 @@ demo="$d/demo.py"
 if [ -f "$demo" ]; then
   (cd /var/tmp && PYTHONPATH=/repo timeout 600 /venv/bin/python "$demo" >/dev/null 2>&1); echo "demo on unchanged tree: exit $?"
 fi
-(cd "$wt" && git apply "$d/patch.diff") || { echo "patch does not apply"; exit 3; }
+(cd "$wt" && (git apply "$d/patch.diff" 2>/dev/null || git apply --3way "$d/patch.diff")) || { echo "patch does not apply"; exit 3; }
 if [ -f "$demo" ]; then
   (cd /var/tmp && PYTHONPATH="$wt" timeout 600 /venv/bin/python "$demo" >/dev/null 2>&1); echo "demo on changed tree: exit $?"
 fi
